@@ -16,7 +16,9 @@ import (
 	"flag"
 	"fmt"
 	"go/ast"
+	"go/importer"
 	"go/parser"
+	"go/types"
 	"go/printer"
 	"go/token"
 	"os"
@@ -58,6 +60,9 @@ func modulePath() (string, error) {
 }
 
 type info struct {
+	MapRanges       int      `json:"map_ranges_sorted"`
+	MapRangesKept   int      `json:"map_ranges_kept"`
+	TypeCheck       string   `json:"typecheck"`
 	Files           []string `json:"files_rewritten"`
 	SelectsRewriten int      `json:"selects_rewritten"`
 	SelectsKept     int      `json:"selects_kept"`
@@ -82,6 +87,12 @@ func run() error {
 	if err != nil {
 		return err
 	}
+	fset := token.NewFileSet()
+	type src struct {
+		name string
+		f    *ast.File
+	}
+	var srcs []src
 	for _, e := range ents {
 		name := e.Name()
 		if e.IsDir() || !strings.HasSuffix(name, ".go") {
@@ -96,12 +107,42 @@ func run() error {
 		if *noshim {
 			continue
 		}
-		dst := filepath.Join(*out, name)
-		if err := rewrite(full, dst, mod, &inf); err != nil {
+		f, err := parser.ParseFile(fset, full, nil, parser.SkipObjectResolution)
+		if err != nil {
 			return fmt.Errorf("%s: %w", name, err)
 		}
-		replace[full] = dst
-		inf.Files = append(inf.Files, name)
+		srcs = append(srcs, src{name, f})
+	}
+	if !*noshim {
+		// type-check once so that range-over-map statements can be given a deterministic order
+		tinfo := &types.Info{Types: map[ast.Expr]types.TypeAndValue{}}
+		var files []*ast.File
+		for _, s := range srcs {
+			files = append(files, s.f)
+		}
+		cwd, _ := os.Getwd()
+		_ = os.Chdir(*repo)
+		conf := types.Config{Importer: importer.ForCompiler(fset, "source", nil), Error: func(error) {}}
+		_, terr := conf.Check(mod, fset, files, tinfo)
+		_ = os.Chdir(cwd)
+		if terr != nil {
+			inf.TypeCheck = "failed: " + terr.Error()
+		} else {
+			inf.TypeCheck = "ok"
+			for _, s := range srcs {
+				if sortMapRanges(s.f, tinfo, &inf) {
+					addImport(s.f, "vverifsched", mod+"/internal/vsched")
+				}
+			}
+		}
+		for _, s := range srcs {
+			dst := filepath.Join(*out, s.name)
+			if err := rewrite(fset, s.f, dst, mod, &inf); err != nil {
+				return fmt.Errorf("%s: %w", s.name, err)
+			}
+			replace[filepath.Join(*repo, s.name)] = dst
+			inf.Files = append(inf.Files, s.name)
+		}
 	}
 
 	// virtual shim packages
@@ -146,12 +187,104 @@ func run() error {
 	return os.WriteFile(filepath.Join(*out, "info.json"), ib, 0o644)
 }
 
-func rewrite(src, dst, mod string, inf *info) error {
-	fset := token.NewFileSet()
-	f, err := parser.ParseFile(fset, src, nil, parser.SkipObjectResolution)
-	if err != nil {
-		return err
+func addImport(f *ast.File, alias, path string) {
+	spec := &ast.ImportSpec{Name: ast.NewIdent(alias), Path: &ast.BasicLit{Kind: token.STRING, Value: strconv.Quote(path)}}
+	for _, d := range f.Decls {
+		if gd, ok := d.(*ast.GenDecl); ok && gd.Tok == token.IMPORT {
+			gd.Specs = append(gd.Specs, spec)
+			if !gd.Lparen.IsValid() {
+				gd.Lparen = gd.Pos()
+				gd.Rparen = gd.End()
+			}
+			f.Imports = append(f.Imports, spec)
+			return
+		}
 	}
+	gd := &ast.GenDecl{Tok: token.IMPORT, Specs: []ast.Spec{spec}}
+	f.Decls = append([]ast.Decl{gd}, f.Decls...)
+	f.Imports = append(f.Imports, spec)
+}
+
+func simpleExpr(e ast.Expr) bool {
+	switch x := e.(type) {
+	case *ast.Ident:
+		return true
+	case *ast.SelectorExpr:
+		return simpleExpr(x.X)
+	case *ast.ParenExpr:
+		return simpleExpr(x.X)
+	}
+	return false
+}
+
+// sortMapRanges rewrites `for k, v := range m {B}` over maps with ordered keys into an
+// iteration over the sorted key snapshot (one of the orders the language allows), so that
+// executions do not depend on the runtime's random map iteration order.
+func sortMapRanges(f *ast.File, tinfo *types.Info, inf *info) bool {
+	changed := false
+	labeled := map[*ast.RangeStmt]bool{}
+	ast.Inspect(f, func(n ast.Node) bool {
+		if l, ok := n.(*ast.LabeledStmt); ok {
+			if r, ok := l.Stmt.(*ast.RangeStmt); ok {
+				labeled[r] = true
+			}
+		}
+		return true
+	})
+	ast.Inspect(f, func(n ast.Node) bool {
+		r, ok := n.(*ast.RangeStmt)
+		if !ok {
+			return true
+		}
+		tv, ok := tinfo.Types[r.X]
+		if !ok {
+			return true
+		}
+		m, ok := tv.Type.Underlying().(*types.Map)
+		if !ok {
+			return true
+		}
+		b, okb := m.Key().Underlying().(*types.Basic)
+		ordered := okb && b.Info()&(types.IsInteger|types.IsString|types.IsFloat) != 0
+		if !ordered || labeled[r] || r.Tok != token.DEFINE || !simpleExpr(r.X) || (r.Key == nil && r.Value == nil) {
+			inf.MapRangesKept++
+			return true
+		}
+		keyName := "vverifK"
+		if id, ok := r.Key.(*ast.Ident); ok && id.Name != "_" {
+			keyName = id.Name
+		}
+		var pre []ast.Stmt
+		if r.Value != nil {
+			if id, ok := r.Value.(*ast.Ident); !ok || id.Name != "_" {
+				pre = append(pre,
+					&ast.AssignStmt{Lhs: []ast.Expr{r.Value, ast.NewIdent("vverifOK")}, Tok: token.DEFINE,
+						Rhs: []ast.Expr{&ast.IndexExpr{X: r.X, Index: ast.NewIdent(keyName)}}},
+					&ast.IfStmt{Cond: &ast.UnaryExpr{Op: token.NOT, X: ast.NewIdent("vverifOK")},
+						Body: &ast.BlockStmt{List: []ast.Stmt{&ast.BranchStmt{Tok: token.CONTINUE}}}})
+			}
+		}
+		if len(pre) == 0 {
+			// key-only iteration: still skip keys deleted meanwhile
+			pre = append(pre,
+				&ast.IfStmt{
+					Init: &ast.AssignStmt{Lhs: []ast.Expr{ast.NewIdent("_"), ast.NewIdent("vverifOK")}, Tok: token.DEFINE,
+						Rhs: []ast.Expr{&ast.IndexExpr{X: r.X, Index: ast.NewIdent(keyName)}}},
+					Cond: &ast.UnaryExpr{Op: token.NOT, X: ast.NewIdent("vverifOK")},
+					Body: &ast.BlockStmt{List: []ast.Stmt{&ast.BranchStmt{Tok: token.CONTINUE}}}})
+		}
+		r.Body.List = append(pre, r.Body.List...)
+		r.Key = ast.NewIdent("_")
+		r.Value = ast.NewIdent(keyName)
+		r.X = &ast.CallExpr{Fun: &ast.SelectorExpr{X: ast.NewIdent("vverifsched"), Sel: ast.NewIdent("SortedKeys")}, Args: []ast.Expr{r.X}}
+		inf.MapRanges++
+		changed = true
+		return true
+	})
+	return changed
+}
+
+func rewrite(fset *token.FileSet, f *ast.File, dst, mod string, inf *info) error {
 	for _, im := range f.Imports {
 		p, _ := strconv.Unquote(im.Path.Value)
 		var shim, name string
